@@ -17,6 +17,8 @@ package main
 //   unsigned     -> Nat,   `-` wraps modulo 2^w faithfully; `+`,`*` do not wrap (assumed in range)
 //   bool         -> Bool in value position, Prop in `if` conditions
 //   [N]byte, []byte -> Nat → Nat (index ↦ byte); index safety is NOT modelled here
+//   [N]bool and nested [N]...[M]bool lookup tables -> Nat → ... → Bool (keyed / positional array
+//                     literals become if-chains, unset elements are false); index safety NOT modelled
 //   struct       -> Lean structure over the translatable fields
 //   (time.Duration).Seconds() -> Int.tdiv d 1000000000   (exact for whole seconds < 2^53 ns)
 
@@ -108,6 +110,18 @@ func isByteSeq(t types.Type) bool {
 	return false
 }
 
+// isBoolTable: a fixed-size array of bool, or of such arrays (lookup tables like commonPorts).
+func isBoolTable(t types.Type) bool {
+	a, ok := t.Underlying().(*types.Array)
+	if !ok {
+		return false
+	}
+	if b, ok := a.Elem().Underlying().(*types.Basic); ok {
+		return b.Info()&types.IsBoolean != 0
+	}
+	return isBoolTable(a.Elem())
+}
+
 func (t *Tr) leanType(ty types.Type, pos token.Pos) string {
 	if isByteSeq(ty) {
 		return "(Nat → Nat)"
@@ -116,6 +130,9 @@ func (t *Tr) leanType(ty types.Type, pos token.Pos) string {
 		t.imports["GoProbeModel.Base.GoStd"] = true
 		t.Assume["time.Time / netip.Addr are modelled by GoStd.Time (instant, location id) / GoStd.Addr (bit length, value, zone); == is structural, Before/After/Equal compare the instant, Addr.Less is netip's Compare order"] = true
 		return e
+	}
+	if isBoolTable(ty) {
+		return "(Nat → " + t.leanType(ty.Underlying().(*types.Array).Elem(), pos) + ")"
 	}
 	switch u := ty.Underlying().(type) {
 	case *types.Signature:
@@ -210,6 +227,9 @@ func (t *Tr) zero(ty types.Type, pos token.Pos) string {
 	}
 	if e := extType(ty); e != "" {
 		return "(default : " + e + ")"
+	}
+	if isBoolTable(ty) {
+		return "(fun _ => " + t.zero(ty.Underlying().(*types.Array).Elem(), pos) + ")"
 	}
 	switch u := ty.Underlying().(type) {
 	case *types.Basic:
@@ -478,7 +498,7 @@ func (t *Tr) expr(e ast.Expr) string {
 		return t.binary(x)
 	case *ast.IndexExpr:
 		xt := t.typeOf(x.X)
-		if isByteSeq(xt) {
+		if isByteSeq(xt) || isBoolTable(xt) {
 			return "(" + t.expr(x.X) + " " + t.natIndex(x.Index) + ")"
 		}
 		t.fail(x.Pos(), "unsupported index expression on %s", xt)
@@ -834,6 +854,31 @@ func (t *Tr) composite(c *ast.CompositeLit) string {
 		}
 		return "({ " + strings.Join(fs, ", ") + " } : " + n.Obj().Name() + ")"
 	case *types.Slice, *types.Array:
+		if isBoolTable(ty) {
+			// sparse lookup table: if-chain over the (constant) element indices, default = zero value
+			arr := u.(*types.Array)
+			var b strings.Builder
+			b.WriteString("(fun i_ => ")
+			next := int64(0)
+			for _, el := range c.Elts {
+				val := el
+				if kv, ok := el.(*ast.KeyValueExpr); ok {
+					tv, ok := t.info().Types[kv.Key]
+					if !ok || tv.Value == nil || tv.Value.Kind() != constant.Int {
+						t.fail(kv.Pos(), "non-constant key in array literal")
+					}
+					k, _ := constant.Int64Val(tv.Value)
+					next, val = k, kv.Value
+				}
+				if next < 0 || next >= arr.Len() {
+					t.fail(el.Pos(), "array literal index %d out of range", next)
+				}
+				fmt.Fprintf(&b, "if i_ = %d then %s else ", next, t.elt(val))
+				next++
+			}
+			b.WriteString(t.zero(arr.Elem(), c.Pos()) + ")")
+			return b.String()
+		}
 		var els []string
 		for _, el := range c.Elts {
 			if _, ok := el.(*ast.KeyValueExpr); ok {
